@@ -519,6 +519,41 @@ func (r *CheckRun) finish() int {
 		for _, m := range hr.ValidationMismatch {
 			bad("%s: engine/native mismatch: %s", hr.Name, m)
 		}
+		if len(ex.Violations) > 0 && hr.NoNative && !r.NoReplay {
+			os.MkdirAll(filepath.Join(r.Verif, "replay"), 0o755)
+			for i, v := range ex.Violations {
+				if i >= 8 {
+					break
+				}
+				asrt := v.Violated
+				if v.Outcome == outcomePanic {
+					asrt = "no-panic"
+				}
+				sig := pathSignature(v)
+				matched := false
+				for _, k := range known.Findings {
+					if k.Property == r.Prop && k.Harness == hr.Name && k.Assertion == asrt {
+						if ok, _ := regexp.MatchString(k.Signature, sig); ok {
+							matched = true
+							if !knownHits[k.What] {
+								knownHits[k.What] = true
+								fmt.Printf("KNOWN-FINDING: property=%s %s\n", r.Prop, k.What)
+							}
+						}
+					}
+				}
+				if matched {
+					continue
+				}
+				name := fmt.Sprintf("%s-%s-%d.json", r.Prop, hr.Name, i)
+				path := filepath.Join(r.Verif, "replay", name)
+				b, _ := json.MarshalIndent(makeWitness(r.Prop, hr, v, r.tierN()), "", " ")
+				os.WriteFile(path, b, 0o644)
+				violations++
+				fmt.Printf("VIOLATION property=%s replay=%s\n", r.Prop, path)
+				fmt.Printf("  harness=%s assertion=%s signature=[%s] (engine-only harness: the counterexample is re-executable with `gosmt replay`, it has no native twin) %s\n", hr.Name, asrt, sig, firstLines(v.Msg, 2))
+			}
+		}
 		if len(ex.Violations) > 0 && r.NoReplay {
 			for _, v := range ex.Violations {
 				fmt.Printf("  unreplayed counterexample in %s: %s\n", hr.Name, firstLines(v.Msg, 2))
